@@ -294,6 +294,7 @@ def gen_mtm(seed, index):
     n = rng.randint(4, 22)
     lookups = []
     optional = arity >= 2 and rng.random() < 0.4
+    with_dep = rng.random() < 0.3
     for _ in range(rng.randint(2, 5)):
         ln = rng.randint(1, arity) if optional else arity
         lookups.append([rng.choice(CNAMES[:-1] + ["int"]) for _ in range(ln)])
@@ -301,6 +302,10 @@ def gen_mtm(seed, index):
     def reg_op(h):
         op = {"op": "reg", "types": [rng.choice(CNAMES) for _ in range(arity)],
               "prio": rng.choice([0, 0, 0, 1, 2]), "h": h}
+        if with_dep and rng.random() < 0.35:
+            # a value-dependent type (Equals[0] / Equals[1], bound int): lookups of int then return a
+            # generated value-checking dispatcher
+            op["types"][rng.randrange(arity)] = rng.choice(["E0", "E1"])
         if optional and rng.random() < 0.6:
             op["req"] = rng.randint(1, arity - 1)
         return op
@@ -339,14 +344,30 @@ def _mk_handlers(n):
 
 
 def _classes():
+    from ovld.dependent import Equals
+
     w = World({"classes": CLASSES, "methods": {}})
-    return {n: getattr(w.mod, n) for n in CNAMES if n != "object"} | {"object": object, "int": int}
+    return {n: getattr(w.mod, n) for n in CNAMES if n != "object"} | {
+        "object": object, "int": int, "E0": Equals(0), "E1": Equals(1)}
 
 
-def _mtm_outcome(fn):
+def _mtm_outcome(fn, nargs=1):
+    import re as _re
+
     try:
         r = fn()
-        return ["ok", getattr(r, "__name__", str(r))]
+        name = getattr(r, "__name__", str(r))
+        if not _re.fullmatch(r"h\d+", name):
+            # a generated value-checking dispatcher (its name carries a counter): compare by what it
+            # does on sample values
+            vals = []
+            for v in (0, 1, 2):
+                try:
+                    vals.append(r(*([v] * nargs)))
+                except Exception as e:  # noqa: BLE001
+                    vals.append(type(e).__name__)
+            return ["ok", "dispatcher", vals]
+        return ["ok", name]
     except KeyError as e:
         cands = e.args[1] if len(e.args) > 1 else ()
         if not cands:
@@ -383,7 +404,7 @@ def execute_mtm(scen):
         tup = tuple(cl[t] for t in op["types"])
         if op["op"] == "getnext":
             tup = (handlers[op["h"]].__code__,) + tup
-        return _mtm_outcome(lambda: table[tup])
+        return _mtm_outcome(lambda: table[tup], len(op["types"]))
 
     for i, op in enumerate(scen["ops"]):
         if op["op"] == "reg":
